@@ -18,9 +18,12 @@ A. Small-step semantics of the primitives the shutdown paths use: mutexes (exclu
 B. The trace of an execution (`SEv`) and its happens-before edges: program order, go statement →
    started goroutine, release → later acquisition of the same mutex, n-th send → n-th receive,
    close → receive-of-zero, Done → later Wait return, cancel → observation.
-C. Exhaustive exploration: a list of states closed under every step of every thread contains
-   every reachable state (`Lemmas/C18Sync.lean`), so Bool checks over such a list
-   (`decide +kernel`) are statements about ALL interleavings.
+C. Exhaustive exploration: a set of states (`NSet`, a search tree of literals) that contains the
+   initial state and is closed under every step of every thread contains every reachable state
+   (`Lemmas/C18Sync.lean`, `closed_reach`), so Bool checks over its elements (`decide +kernel`)
+   are statements about ALL interleavings. Per state only the alternatives of the threads'
+   CURRENT instructions are tried. `progOk` is the static check that no two objects of a program
+   share a digit (needed by the operational lemmas about channels / contexts / go statements).
 -/
 namespace CV.C18.Sync
 
@@ -78,8 +81,9 @@ abbrev PanicCode := Nat
 def B : Nat := 64
 
 def dig (s i : Nat) : Nat := (s / B ^ i) % B
-/-- replace digit `i` by `v` -/
-def setDig (s i v : Nat) : Nat := s % B ^ i + B ^ i * (v + B * (s / B ^ (i + 1)))
+/-- replace digit `i` by `v` (a value that does not fit in a digit wraps modulo `B`: counters are
+meant to stay below `B`) -/
+def setDig (s i v : Nat) : Nat := s % B ^ i + B ^ i * (v % B + B * (s / B ^ (i + 1)))
 
 /-! digit positions: 0 panic code; then per thread `0` = not started, `pc + 1` = at `pc`; per
 mutex (exclusive flag, reader count); per channel (length, closed flag); wait-group counters;
@@ -109,6 +113,10 @@ def SEv.tid : SEv → Tid
   | .acq t _ _ | .rel t _ | .send t _ | .recv t _ | .recvZero t _ | .close t _
   | .wgAdd t _ | .wgDone t _ | .wgWait t _ | .cancel t _ | .done t _ | .rd t _ | .wr t _
   | .spawn t _ | .tau t | .panic t _ => t
+
+def isPanic : SEv → Bool
+  | .panic _ _ => true
+  | _ => false
 
 /-- can `op` fire in `s`? (`ld x v`: only the branch of the value actually stored) -/
 def enabled (cfg : Cfg) (s : Nat) : Op → Bool
